@@ -197,7 +197,14 @@ func serverCases(thorough bool) []srvCase {
 	// the ANNOUNCED value, so counts and sizes are taken around that.
 	msizes := []uint32{4096, 8192, 65536, mib4, mib4 + 1, 8 << 20}
 	if thorough {
-		msizes = []uint32{24, 64, 512, 4096, 4097, 8192, 12345, 65536, 1 << 20, mib4 - 1, mib4, mib4 + 1, 8 << 20, 1<<32 - 1}
+		msizes = []uint32{24, 64, 512, 4096, 8192, 12345, 65536, 1 << 20, mib4 - 1, mib4, mib4 + 1, 8 << 20, 1<<32 - 1}
+	}
+	// 4096+d, d = 1..12: with 32-byte directory entries (name length 8) a
+	// whole number of entries ends exactly d bytes below the msize, so a
+	// reply limit that is off by any 1..11 bytes (a header or count field
+	// forgotten in the clamp) produces a frame above the msize.
+	for d := uint32(1); d <= 12; d++ {
+		msizes = append(msizes, 4096+d)
 	}
 	var out []srvCase
 	for _, m := range msizes {
